@@ -44,16 +44,16 @@ impl Property for FuncProp {
 
     fn cases(&self, tier: Tier) -> u64 {
         let q = match self.id {
-            "C15" => 10_000,
-            "C16" => 3_000,
+            "C15" => 40_000,
+            "C16" => 8_000,
             "C17" => 16_000,
-            "C18" => 20_000,
-            "C19" => 6_000,
+            "C18" => 60_000,
+            "C19" => 40_000,
             _ => 1000,
         };
         match tier {
             Tier::Quick => q,
-            Tier::Thorough => q * 40,
+            Tier::Thorough => q * 20,
         }
     }
 
